@@ -91,7 +91,9 @@ impl Scales {
             EK::Energy | EK::StepVec => tol(self.s_energy(e.car), self.n),
             EK::Weighted => tol(self.s_weighted(e.car), self.n),
             EK::Need => tol(self.needs, self.n),
-            EK::RatioVec => 2e-5,
+            // (a matching factor depends on sums of the step's lines and, through the annual shares of re-assigned
+            // auxiliaries, on annual f32 sums, whose rounding grows with the length of the series)
+            EK::RatioVec => 2e-5 + 2.0 * self.n as f64 * EPS32,
             EK::Ratio => 1e-4, // ratios are compared by dedicated code; fallback only
             EK::Param => 1e-6,
         };
